@@ -24,6 +24,11 @@ def run(ctx):
     ctx.translate(COMPONENTS)
     ctx.prove('props/C01.v')
     L.lockstep(ctx, [L.mon_c01])
+    # removal "by dropping the object that owns it": the iterator instance records the ids it registered and
+    # unregisters them in Drop; two handle clones adding a signal concurrently must not lose an id
+    import c12
+    if ctx.harness(['ls_addsig']):
+        c12.concurrent_add(ctx)
     ctx.coverage['rule'] = ('scenarios {unregister | unregister_signal | first/second registration} x 1-2 deliveries (incl. prior foreign handler), '
                             'every split point of one activity against the other + random 2-preemption and random run-length schedules; '
                             'distinct_nontrivial = distinct implementation traces in which at least two activities interleave; monitors: '
